@@ -476,6 +476,24 @@ fn run_bounds(rec: &mut Rec, rng: &mut Rng, ctx: &B11, scale: u64) -> String {
 				RawTaggedField::KnownSemantics(TaggedField::PaymentMetadata(rng.bytes(n)))] } };
 		raw_roundtrip(rec, ctx, raw, &format!("description and metadata of {} bytes", n));
 	}
+	// multi-byte descriptions: the limit is 639 BYTES of UTF-8 (what the 10-bit field length can carry), not 639 characters
+	for (ch, w) in [('é', 2usize), ('€', 3), ('😀', 4)] {
+		for k in [638 / w, 639 / w, 639 / w + 1, 320, 639] {
+			let d: String = std::iter::repeat(ch).take(k).collect();
+			let bytes = d.len();
+			let d2 = d.clone();
+			match guarded(std::panic::AssertUnwindSafe(move || Description::new(d2))) {
+				Ok(Ok(desc)) => {
+					if bytes > WIRE_FIELD_BYTES_MAX { ofail(rec, format!("builder accepted a description of {} bytes ({} characters of {} bytes each) which a tagged field cannot carry", bytes, k, w)); continue; }
+					let raw = RawBolt11Invoice { hrp: hrp0.clone(), data: RawDataPart { timestamp: PositiveTimestamp::from_unix_timestamp(3).unwrap(),
+						tagged_fields: vec![RawTaggedField::KnownSemantics(TaggedField::PaymentHash(PaymentHash([3; 32]))), RawTaggedField::KnownSemantics(TaggedField::Description(desc))] } };
+					raw_roundtrip(rec, ctx, raw, &format!("description of {} characters of {} bytes", k, w));
+				},
+				Ok(Err(e)) => if bytes <= WIRE_FIELD_BYTES_MAX { ofail(rec, format!("builder rejected a description the wire format can carry ({:?}): {} bytes in {} characters", e, bytes, k)); },
+				Err(p) => ofail(rec, format!("Description::new panicked on {} characters of {} bytes: {}", k, w, p.chars().take(120).collect::<String>())),
+			}
+		}
+	}
 	for n in [0usize, 1, 11, 12] {
 		let hops: Vec<RouteHintHop> = (0..n).map(|_| RouteHintHop { src_node_id: rand_pubkey(rng, &ctx.secp), short_channel_id: *rng.pick(&[0u64, u64::MAX, 1]), fees: RoutingFees { base_msat: u32::MAX, proportional_millionths: 0 },
 			cltv_expiry_delta: u16::MAX, htlc_minimum_msat: None, htlc_maximum_msat: None }).collect();
